@@ -7,4 +7,4 @@ From FA.Model Require Import Sugar SugarSpec.
 Extraction Language OCaml.
 Extraction "model.ml" expr_eqb size z_to_string z_of_string nat_to_string Z.of_nat
   sugar sugar_pinned convert convert_pinned bind_spec class_fields
-  single_for no_comp gens_ok has_bad_comp.
+  single_for no_comp gens_ok has_bad_comp eval.
